@@ -59,6 +59,20 @@ CLAIMED = {
         "operand really reports a non-zero code (process machinery, C06/C09); main_xonsh exit-status selection; callable raise_subproc_error. "
         "Trusted: pyvc engine + models + z3/cvc5.",
    design="§3 C05"),
+ "C19": dict(
+   category="proof",
+   text="Over a ghost file system (isfile / mtime / open / readline / marshal.load as externals that may fail or return an arbitrary "
+        "object): script_cache_check and code_cache_check use an entry only if it exists, is not older than the source, carries both "
+        "version lines, loads, and IS a code object; every other case (and every exception of every external) yields (False, None) - no "
+        "exception escapes (exhaustive path enumeration; no-exception obligations). should_use_cache equals the documented switch truth "
+        "table; update_cache writes version line, python line, payload in that order and nothing when not writable; run_script_with_cache "
+        "/ run_code_with_cache touch the cache only when switched on, run exactly one code object, name code entries by the digest of the "
+        "text only; _cache_renamer keys script entries by the file's real path. Bounded stand-in: real writer -> real readers on real "
+        "files, every truncation point and 5 corruptions.",
+   note="Assumed: md5 injective; the compiler as an uninterpreted function C(filename, text, mode); the equal-mtime window (>= keeps an "
+        "entry written in the same timestamp tick); os.stat of an existing path does not fail during the call; imphooks module cache and "
+        "marshal format stability not verified. Two genuine defects found and repaired (fix: cda8cf0). Trusted: pyvc engine + models + z3/cvc5.",
+   design="§3 C19"),
 }
 NA = {
  "C01": "equivalence of two grammars (PLY LALR tables vs CPython's PEG parser) is not a function contract; no contract within reach can express or decide it (DESIGN §3 C01)",
